@@ -1,3 +1,25 @@
+import re
+from xvlib import lower as L
+
+# ---------------------------------------------------------------------------------------------------------------
+# unit-local mechanical rules for free_list::pop (C++ constructs the built-in rules do not know):
+#  (a) `if (auto* X = E) {`            ->  `auto* X = E; if (X) {`                     (if statement with initialising declaration)
+#  (b) `guard_ptr NAME;` (local object) ->  declaration + XV_LOCAL_CTOR(NAME); and every later `return E;` becomes
+#      `{ RET_T xv_ret = E; XV_LOCAL_DTOR(NAME); return xv_ret; }`                      (implicit destructor at scope exit)
+def raii_rule(cls, c_type, ret_type):
+    def rule(s, lw):
+        s, n = re.subn(r'\bif\s*\(\s*auto\s*\*\s*(\w+)\s*=\s*([^;{]*?)\)\s*\{', r'auto* \1 = \2; if (\1) {', s)
+        if n: lw.fire('if_init', n)
+        m = re.search(r'\b%s\s+(\w+)\s*;' % re.escape(cls), s)
+        if not m: raise L.ExtractError('raii: no local %s object' % cls)
+        name = m.group(1)
+        head, tail = s[:m.start()], s[m.end():]
+        tail, k = re.subn(r'\breturn\b([^;]*);', lambda r: '{ %s xv_ret = %s; XV_LOCAL_DTOR(%s); return xv_ret; }' % (ret_type, r.group(1).strip(), name), tail)
+        lw.fire('raii_ctor'); lw.fire('raii_dtor', k)
+        return head + '%s %s; XV_LOCAL_CTOR(%s);' % (c_type, name, name) + tail
+    return rule
+POP_RULES = raii_rule('guard_ptr', 'struct guard', 'T*')
+
 I = 'xenium/reclamation/impl/lock_free_ref_count.hpp'
 H = 'xenium/reclamation/lock_free_ref_count.hpp'
 G = 'xenium/reclamation/detail/guard_ptr.hpp'
@@ -27,11 +49,13 @@ UNIT = dict(
         'thread_local local_free_list() is one struct; Traits::thread_local_free_list_size is a symbolic size_t; ::operator new is a stub',
   assumptions=[
     'stub ~T() (O_destroy): the user destructor; enable_concurrent_ptr::~enable_concurrent_ptr sets destroyed (header lines 120-123, not extracted)',
-    'stub free_list::add_nodes and the global (lock-free) half of free_list::pop: not under contract here (local guard_ptr objects with implicit destructors and acquire_guard temporaries cannot be lowered by the available rules); operator new uses a contract stub of free_list::pop',
+    'free_list::pop: `guard = acquire_guard(head, order)` is modelled by the macro XV_ASSIGN_ACQUIRE_GUARD = temporary guard, real acquire, real move assignment, real destructor of the temporary (acquire_guard.hpp:21-25 and the C++ value semantics of the returned prvalue are not extracted); the implicit destructor of the local guard is inserted by the unit-local RAII rule; operator new uses a contract stub of free_list::pop',
+    'ABA freedom of the free list (a guarded node cannot re-enter the list, hence a successful head CAS implies the next pointer read is current) is the composition lemma of Valois / Michael-Scott, not decided here',
     'stub is_destroyed()/refs(): one-line header accessors (destroyed flag; count >> 1)',
     'marked_ptr get()/reset()/==/bool as proved in the marked_ptr unit (word model)',
     'INT rely: other threads may change the guarded source and every reference count arbitrarily, except that they never remove a reference this thread holds (count(k) >= references held by this thread); memory of objects is type-stable (never returned to the system), which is what allows the fetch_add on a possibly freed object',
-    'ghost clock xv_clock does not wrap',
+    'ghost clock and ghost event counters do not wrap; fewer than 2^30 references per object (the 32-bit count does not overflow)',
+    'reclaim() is called at most once per object and only while the object still carries its initial (reachable) reference - the caller\'s obligation, stated as precondition of run g_reclaim',
   ],
   consts=[dict(name='XV_INC', file=H, regex=r'static constexpr unsigned RefCountInc = ([^;]+);'),
           dict(name='XV_CLAIM', file=H, regex=r'static constexpr unsigned RefCountClaimBit = ([^;]+);')],
@@ -81,6 +105,17 @@ UNIT = dict(
          must_fire={'A_LOAD': 2, 'method:add_nodes': 1, 'method:get': 1}),
     dict(fl(self_calls={'add_nodes': 'FL_add_nodes_self'}), id='fl_push', file=I, sig=r'void push\(T\* node\)',
          c_sig='static void lfrc_fl_push(struct obj* node)', must_fire={'method:push': 1, 'self_call:add_nodes': 1, 'call:local_free_list': 1}),
+    dict(fl(methods={'get': {'guard': 'G_get', '*': 'MP_get'}, 'ref_count': 'O_ref_count', 'next_free': 'O_next_free', 'pop': 'TL_pop', 'reset': 'MP_reset'}),
+         id='fl_pop', file=I, sig=r'T\* pop\(\)', which=0, c_sig='static struct obj* lfrc_fl_pop(struct flist* self)',
+         members=['head'], deref={'guard': 'GG_DEREF'}, py_pre=POP_RULES, cut_loops={0: 'FLPOP'},
+         pre_subst=[(r'guard = acquire_guard\(head, (std::memory_order_\w+)\);', r'XV_ASSIGN_ACQUIRE_GUARD(guard, head, \1);', 'acquire_guard'),
+                    (r'marked_ptr expected\(guard\);', 'mptr expected = MarkedPtr(guard);', 'marked_ptr_of_guard')],
+         must_fire={'if_init': 1, 'raii_ctor': 1, 'raii_dtor': 2, 'subst:acquire_guard': 1, 'subst:marked_ptr_of_guard': 1, 'A_CASW': 1, 'A_FSUB': 1, 'A_STORE': 1,
+                    'A_LOAD': 2, 'cut_loop': 1, 'method:pop': 1}),
+    dict(fl(), id='add_nodes', file=I, sig=r'void add_nodes\(T\* first, T\* last\)',
+         c_sig='static void lfrc_fl_add_nodes(struct flist* self, struct obj* first, struct obj* last)', members=['head'], cut_loops={0: 'ADDN'},
+         subst=[(r'compare_exchange_weak\(old, first,', 'compare_exchange_weak(old, MP_FROM_PTR(first),', 'implicit_marked_ptr')],
+         must_fire={'A_LOAD': 1, 'A_STORE': 1, 'A_CASW': 1, 'cut_loop': 1, 'subst:implicit_marked_ptr': 1}),
     dict(fl(methods={'pop': 'FL_pop'}), id='op_new', file=I, sig=r'void\* ' + QE + r'operator new\(size_t sz\)',
          c_sig='static struct obj* lfrc_op_new(size_t sz)',
          pre_subst=[(r'auto h = static_cast<header\*>\(::operator new\(sz \+ sizeof\(header\)\)\);', 'auto h = XV_RAW_NEW(sz);', 'raw_new'),
@@ -111,10 +146,17 @@ UNIT = dict(
     dict(id='tl_pop', entry='h_tl_pop', cls='shape-complete'),
     dict(id='tl_dtor', entry='h_tl_dtor', cls='shape-complete', unwindset=['lfrc_tl_dtor.0:4']),
     dict(id='fl_push', entry='h_fl_push', cls='shape-complete'),
+    dict(id='add_nodes', entry='h_add_nodes', cls='unbounded', note='retry loop cut by invariant ADDN'),
+    dict(id='add_nodes_int', entry='h_add_nodes', mode='INT', cls='unbounded', note='the global head changes between the load and the CAS'),
+    dict(id='fl_pop', entry='h_fl_pop', cls='shape-complete', note='global free list of up to L=3 nodes (only the head node is touched); retry loop cut by invariant FLPOP, the inner acquire loop by ACQ'),
+    dict(id='fl_pop_int', entry='h_fl_pop', mode='INT', cls='shape-complete'),
     dict(id='op_new', entry='h_op_new', cls='unbounded'),
+    dict(id='op_new_composed', entry='h_op_new_composed', cls='shape-complete', defs={'REAL_FLPOP': 1}, note='operator new with the real free_list::pop and thread_local_free_list::pop'),
     dict(id='op_delete', entry='h_op_delete', cls='unbounded'),
+    dict(id='g_reset_composed', entry='h_g_reset_composed', cls='unbounded', defs={'REAL_DEC': 1, 'REAL_FLPUSH': 1},
+         note='reset() with the real decrement_refcnt, free_list::push and thread_local_free_list::push instead of their contract stubs'),
   ],
-  loop_obligation={'DEC': 'lfrc.decrement.claims_once', 'ACQ': 'lfrc.acquire.inc_then_validate'},
+  loop_obligation={'DEC': 'lfrc.decrement.claims_once', 'ACQ': 'lfrc.acquire.inc_then_validate', 'ADDN': 'lfrc.freelist.push_links', 'FLPOP': 'lfrc.freelist.pop_owns'},
   obligations={
     'lfrc.layout': dict(deciding=True, text='the extracted constants give the word layout the code relies on: claim bit = LSB, count above it (RefCountClaimBit == 1, RefCountInc == 2)'),
     'lfrc.decrement.claims_once': dict(deciding=True, text='[SEQ+INT] for every 32-bit count word e replaced by the successful CAS: decrement_refcnt returns true iff the count part of e is 1 and the claim bit clear; the new word has count-1 and the claim bit set iff it was set or the call returned true (true => new word == RefCountClaimBit); exactly one CAS succeeds and nothing else is written'),
@@ -126,9 +168,12 @@ UNIT = dict(
     'lfrc.reset.destroy_iff_claimed': dict(deciding=True, text='an object is destroyed (unless already destroyed) and then pushed to the free list exactly when a decrement by this thread returned true for it, once, with the claim bit set; never otherwise; nothing claimed is left unpushed'),
     'lfrc.reclaim.once': dict(deciding=True, text="reclaim drops the object's own (reachable) reference by exactly one fetch_sub(RefCountInc) and then the guard's reference; an empty guard does nothing"),
     'lfrc.freelist.conserve': dict(deciding=True, text='thread-local free list push/pop/destructor and free_list::push: the node goes to exactly one place (local list head, or add_nodes once), pop returns the head and unlinks it, the destructor hands the whole chain (first, last) to the global list once; other nodes and counts untouched'),
+    'lfrc.freelist.push_links': dict(deciding=True, text='[SEQ+INT] free_list::add_nodes(first,last) publishes first by one successful CAS on the global head, and at that moment last->next_free holds exactly the head value the CAS replaced (the chain is linked in front of the old list, nothing lost); no other node is written'),
+    'lfrc.freelist.pop_owns': dict(deciding=True, text='[SEQ+INT] free_list::pop returns a node only after a successful CAS that replaced the head, whose expected value was the guarded (increment-then-validated) node and whose desired value was read from that node\'s next_free while it was guarded; the caller then holds exactly one reference on it (the guard\'s, the guard is emptied without decrement), the claim bit is cleared exactly once and next_free is null; on every other path all references taken are given back; with an empty local and global list the result is nullptr'),
     'lfrc.new.reinit_count': dict(deciding=True, text='a node re-used from the free list gets exactly one more reference and a clear claim bit (word == RefCountInc when it was free with no stale references); a fresh node starts with RefCountInc; operator new changes nothing else'),
     'lfrc.sync.orders': dict(deciding=True, text="sync precondition: the claiming CAS is acquire-or-stronger, a decrement of an unclaimed object is release-or-stronger, acquire's fetch_add is acquire-or-stronger and the validating load uses the caller's order"),
   },
-  replays={'lfrc.decrement.claims_once': dict(src='replay_decrement.cpp'), 'lfrc.guard.algebra': dict(src='replay_guard.cpp')},
-  canaries=['decrement.already_claimed', 'decrement.claimed', 'decrement.shared', 'decrement.underflow_value', 'fl_push.global', 'fl_push.local', 'g_acquire.fresh', 'g_acquire.mark_only', 'g_acquire.null_drop', 'g_acquire.replace', 'g_aie.changed_undone', 'g_aie.false_drop', 'g_aie.true', 'g_aie.true_null', 'g_copy_assign.gains', 'g_copy_assign.last_reference', 'g_copy_assign.same_object', 'g_copy_assign.self', 'g_copy_ctor.nonnull', 'g_ctor.mark_only', 'g_ctor.nonnull', 'g_move_assign.last_reference', 'g_move_assign.same_object', 'g_move_assign.self', 'g_move_ctor.nonnull', 'g_reclaim.empty', 'g_reclaim.last', 'g_reclaim.still_guarded', 'g_reset.destroys', 'g_reset.frees_already_destroyed', 'g_reset.mark_only', 'g_reset.shared', 'g_swap.done', 'op_delete.freed', 'op_delete.still_guarded', 'op_new.fresh', 'op_new.reused', 'tl_dtor.empty', 'tl_dtor.hands_over', 'tl_pop.empty', 'tl_pop.longest', 'tl_pop.node', 'tl_push.full', 'tl_push.stored'],
+  replays={'lfrc.decrement.claims_once': dict(src='replay_decrement.cpp'), 'lfrc.guard.algebra': dict(src='replay_guard.cpp'),
+           'lfrc.reset.destroy_iff_claimed': dict(src='replay_guard.cpp'), 'lfrc.reclaim.once': dict(src='replay_guard.cpp')},
+  canaries=['add_nodes.chain', 'add_nodes.single', 'decrement.already_claimed', 'decrement.claimed', 'decrement.shared', 'decrement.underflow_value', 'fl_pop.after_retry', 'fl_pop.empty', 'fl_pop.node', 'fl_push.global', 'fl_push.local', 'g_acquire.fresh', 'g_acquire.mark_only', 'g_acquire.null_drop', 'g_acquire.replace', 'g_aie.changed_undone', 'g_aie.false_drop', 'g_aie.true', 'g_aie.true_null', 'g_copy_assign.gains', 'g_copy_assign.last_reference', 'g_copy_assign.same_object', 'g_copy_assign.self', 'g_copy_ctor.nonnull', 'g_ctor.mark_only', 'g_ctor.nonnull', 'g_move_assign.last_reference', 'g_move_assign.same_object', 'g_move_assign.self', 'g_move_ctor.nonnull', 'g_reclaim.empty', 'g_reclaim.last', 'g_reclaim.still_guarded', 'g_reset.destroys', 'g_reset.frees_already_destroyed', 'g_reset.mark_only', 'g_reset.shared', 'g_reset_composed.global', 'g_reset_composed.local', 'g_reset_composed.shared', 'g_swap.done', 'op_delete.freed', 'op_delete.still_guarded', 'op_new.fresh', 'op_new.reused', 'op_new_composed.fresh', 'op_new_composed.global', 'op_new_composed.local', 'op_new_composed.local_disabled', 'tl_dtor.empty', 'tl_dtor.hands_over', 'tl_pop.empty', 'tl_pop.longest', 'tl_pop.node', 'tl_push.full', 'tl_push.stored'],
 )
